@@ -16,6 +16,22 @@ CLAIMED = {
    text='Same program space as C01 over dict-backed sources (unique keys, duplicate keys across concatenated / tiled parts); keys(), list(items()), ds[k] for present and absent probe keys are recorded and judged by TLC against the reference (which carries keys through every combinator).',
    note='As C01. "raises a lookup error" is checked as "raises, never returns a value"; the exception class is recorded as conformance data only.',
    tech='TLA+ state machine over API programs, TLC BFS + trace validation of real observations'),
+ 'C04': dict(engine='conc', cat='model_checking', ref='DESIGN.md section 6 C04',
+   text='TLC explores every interleaving of the implementation-shaped specs SingleThreadPrefetch.tla (worker/consumer, one action per access to the queue, the shutdown flag, exc_info) and PoolMap.tla (generator thread + pool threads, every completion order) for all configurations up to n=3 (thorough 4): order/exactly-once/completeness invariants. Bound to the code both ways: a transition cover of TLC\'s state graphs is replayed on the REAL threads under a controlled scheduler (unmodified parallel_utils, shims + sys.settrace on closure-cell lines) and the real code\'s own schedules are explored by stateless DFS (exhaustive for small configurations) and seeded random schedules; every recorded event log is validated by TLC against the spec actions (field by field) and judged by the property verdicts. Dataset level (ds.prefetch / ds.map(num_workers), catch_filter_exception) likewise under the scheduler; the four process back ends are sampled with real OS scheduling.',
+   note='Trusted: TLC; harness/detsched.py shim executor as a model of concurrent.futures.ThreadPoolExecutor; scheduling points = shim ops + user code + lines touching shutdown/exc_info. Process back ends: sampling only.',
+   tech='TLA+ specs of the thread protocols, TLC model checking + transition-cover replay + trace validation under a controlled scheduler'),
+ 'C05': dict(engine='conc', cat='model_checking', ref='DESIGN.md section 6 C05',
+   text='Same machinery as C04. Design level: NoDeadlock invariant, termination under weak fairness, "control is back only after every background thread exited", "nothing pending after terminate()"; vacuity scenario: with the sentinel guard removed TLC must find the documented buffer_size=1 deadlock. Code level: under the controlled scheduler deadlock is exact (no enabled thread), thread liveness and user code after return are read from the event log; every consumer stop point (exhaustion, close after k, throw) x source end/failure.',
+   note='As C04. Cancellation cannot be atomic with close(): the checked clause is "a cancelled future never runs and nothing stays pending after terminate()". Real process pools: wall-clock bound 90 s for millisecond workloads.',
+   tech='TLA+ specs of the thread protocols, TLC model checking (deadlock, liveness) + controlled-scheduler trace validation'),
+ 'C06': dict(engine='conc', cat='model_checking', ref='DESIGN.md section 6 C06',
+   text='Same machinery as C04 with fault injection: the source raises (Exception / BaseException) at every position in the worker thread; the mapped function raises on every item in a pool task; catch_filter_exception on/off with caught and foreign exception types. Invariants: the failure surfaces after exactly the preceding examples, never a silent truncation; catching omits exactly the failing examples.',
+   note='As C04. A source failure in the FOREGROUND of lazy_parallel_map (the consumer\'s own thread) is outside the antecedent "evaluated in the background": only "not swallowed" is demanded there (DESIGN section 6).',
+   tech='TLA+ specs of the thread protocols with fault injection, TLC model checking + controlled-scheduler trace validation'),
+ 'C07': dict(engine='conc', cat='model_checking', ref='DESIGN.md section 6 C07',
+   text='Same machinery as C04. State invariants pulled - delivered <= buffer + 2 and started - delivered <= buffer in every state of every schedule (the consumer may pause anywhere); the tightened bounds are REFUTED by TLC (vacuity guard). On real event logs the bound is evaluated at every prefix, with workloads of 4..12 items above the buffer size.',
+   note='As C04. With catch_filter_exception, examples dropped by the catch count as consumed once finished.',
+   tech='TLA+ specs of the thread protocols, TLC invariant checking + controlled-scheduler trace validation'),
 }
 
 PENDING_REASON = 'check not built yet in this round (specification planned in DESIGN.md section 6); will be claimed when its check exists'
@@ -57,6 +73,9 @@ def main():
             {'name': 'pipeline', 'path': '/verif/specs/Pipeline.tla',
              'serves_properties': ['C01', 'C02', 'C03'],
              'kind_free_text': 'TLA+ specs Values/Ref/Impl/Obs/Pipeline/PipelineTrace checked with TLC; harness/{build,observe,pipeline}.py bind them to the code in both directions'},
+            {'name': 'conc', 'path': '/verif/specs/SingleThreadPrefetch.tla',
+             'serves_properties': ['C04', 'C05', 'C06', 'C07'],
+             'kind_free_text': 'TLA+ specs SingleThreadPrefetch/PoolMap/PrefetchAbs + trace specs STPTrace/LPMTrace/DSTrace; harness/detsched.py (controlled scheduler over the real threads), conc.py, realpool.py, check_conc.py'},
         ],
         'checks': checks,
         'notes': 'All checks run ./check <id> (bash -> /venv/bin/python -m harness.main); they import lazy_dataset from /repo working tree at run time (pure Python, nothing to build). Genuine defects found are in known_findings.json (fixed ones carry their /repo commit).',
